@@ -266,8 +266,10 @@ func runC02(c *core.Ctx) {
 		if pn, msg := core.Guard(func() { ok, err = libValidateMIC(phy, up, p) }); pn || err != nil || !ok {
 			c.Violate("C02|validate-own-mic|"+dir, "Validate rejects the MIC Set just wrote: ok=%v err=%v %s", ok, err, msg)
 		}
-		// a Set call that cannot succeed (the frame is momentarily unserialisable: 16+ bytes of FOpts)
-		// reports the error and leaves the frame, including the MIC it carries, as it was
+		// a Set call that cannot succeed (the frame is momentarily unserialisable: 16+ bytes of FOpts) reports
+		// the error. What the frame's MIC field holds afterwards is not the property's business (the library
+		// leaves it; clearing it is as good) - but Validate must then say what the frame carries: true exactly
+		// when that is still the specification's value
 		if i%5 == 0 {
 			mp := phy.MACPayload.(*lorawan.MACPayload)
 			keep := mp.FHDR.FOpts
@@ -278,8 +280,12 @@ func runC02(c *core.Ctx) {
 			mp.FHDR.FOpts = keep
 			if e2 == nil {
 				c.Violate("C02|set-on-unserialisable-frame|"+dir, "Set%sDataMIC reports success on a frame with more than 15 bytes of FOpts", dir)
-			} else if phy.MIC != setMIC {
-				c.Violate("C02|failed-set-changed-mic|"+dir, "a failing Set%sDataMIC (%v) changed the MIC of the frame from %x to %x", dir, e2, [4]byte(setMIC), [4]byte(phy.MIC))
+			}
+			if phy.MIC != setMIC {
+				c.Count("failed-set.mic-field-changed", 1)
+				if ok2, e3 := libValidateMIC(phy, up, p); e3 != nil || ok2 {
+					c.Violate("C02|validate-after-failed-set|"+dir, "a failed Set left MIC %x in the frame (specification: %x) and Validate gives ok=%v err=%v", [4]byte(phy.MIC), [4]byte(setMIC), ok2, e3)
+				}
 				phy.MIC = setMIC
 			}
 			if ok2, e3 := libValidateMIC(phy, up, p); e3 != nil || !ok2 {
